@@ -24,7 +24,8 @@ RULE = (
 REQUIRED = ["canon_checked/wl", "canon_checked/nauty", "fixed_point_checked", "invariance_checked/nauty",
             "invariance_checked/wl", "standardize_checked", "validator_renumberings", "validator_transpositions",
             "validator_rejections_expected", "validator_acceptances_of_transpositions", "balance_true", "balance_false",
-            "reactions_with_ties_and_10plus_atoms", "h_species_balance_cases", "shared_instance_checked", "validator_record_entry_points"]
+            "reactions_with_ties_and_10plus_atoms", "h_species_balance_cases", "shared_instance_checked", "validator_record_entry_points",
+            "notation_balance_checked", "notation_dative_right_arrow", "notation_dative_left_arrow", "lookalike_reactions_distinguishable"]
 ASSUMPTIONS = [
     "numbering independence of CanonRSMI is only demanded when all reactant atoms are distinguishable for the back-end: "
     "nauty - trivial automorphism group of the reactant graph; wl - discrete 3-iteration WL colouring (recomputed in the harness)",
@@ -267,8 +268,71 @@ def check_balance(ctx, r):
             ctx.violation("balance", {"rsmi": v}, f"rsmi_balance_check = {got}; independent counts: reactants {dict(ca)} products {dict(cb)}")
 
 
+# reactions in less common but legal SMILES notation (dative bonds, isotopes, two-digit ring closures, multiply charged ions)
+NOTATION_RXNS = [
+    "N.N.[Cu+2]>>[NH3]->[Cu+2]<-[NH3]", "N.[Cu+2]>>[NH3]->[Cu+2]<-[NH3]", "N.B>>[NH3]->[BH3]", "N.N.B>>[NH3]->[BH3]",
+    "O.[Fe+3]>>[OH2]->[Fe+3]", "CC#N.[Pd+2]>>CC#[N]->[Pd+2]", "CC#N.CC#N.[Pd+2]>>CC#[N]->[Pd+2]", "C1CCOC1.B>>[BH3]<-O1CCCC1",
+    "[2H]O[2H].CCl>>CO[2H].[2H]Cl", "[13CH4].ClCl>>[13CH3]Cl.Cl", "[O-2].[Mg+2]>>[Mg]=O", "[O-2].[Mg+2]>>O=[Mg].O",
+    "C%10CCCCC%10.BrBr>>BrC%11CCCCC%11.Br", "C%10CCCCC%10.BrBr>>BrC%11CCCCC%11", "[NH4+].[OH-]>>N.O", "[NH4+].[OH-]>>N.[OH-]",
+    "c1ccccc1.O=[N+]([O-])O>>c1ccccc1[N+](=O)[O-].O", "[Cl-].[Cl-].[Pt+2].N.N>>[NH3]->[Pt](Cl)(Cl)<-[NH3]",
+]
+
+
+def check_notation(ctx):
+    from rdkit import Chem
+    from synkit.Chem.Reaction.balance_check import BalanceReactionCheck
+
+    rng = ctx.rng
+    for i, r in enumerate(NOTATION_RXNS):
+        if not ctx.mine(i):
+            continue
+        a, b = r.split(">>")
+        spell = [(a, b)]
+        ma, mb = Chem.MolFromSmiles(a), Chem.MolFromSmiles(b)
+        if ma is not None and mb is not None:
+            k = 4 if ctx.quick else 20
+            sa = Chem.MolToRandomSmilesVect(ma, k, randomSeed=rng.randrange(1, 10**6))
+            sb = Chem.MolToRandomSmilesVect(mb, k, randomSeed=rng.randrange(1, 10**6))
+            spell += list(zip(sa, sb))
+        for va, vb in spell:
+            ca, cb = R.counts(va), R.counts(vb)
+            if ca is None or cb is None:
+                ctx.count("balance_variants_unparsable")
+                continue
+            for x, y, cx, cy in ((va, vb, ca, cb), (vb, va, cb, ca)):
+                v = x + ">>" + y
+                exp = cx == cy
+                try:
+                    got = BalanceReactionCheck.rsmi_balance_check(v)
+                except Exception as e:
+                    got = f"{type(e).__name__}: {e}"
+                ctx.count("notation_balance_checked")
+                if "->" in v:
+                    ctx.count("notation_dative_right_arrow")
+                if "<-" in v:
+                    ctx.count("notation_dative_left_arrow")
+                if got != exp:
+                    ctx.violation("balance", {"rsmi": v}, f"rsmi_balance_check = {got}; independent counts: reactants {dict(cx)} products {dict(cy)}")
+            ctx.case(("notation", va, vb), nontrivial=True, sample={"space": "notation reactions", "rsmi": va + ">>" + vb} if rng.random() < 0.05 else None)
+
+
 def run(ctx):
     rng = ctx.rng
+    check_notation(ctx)
+    # reactions with look-alike atoms (same element/charge/H/degree, different bond orders around them)
+    for t in range(30 if ctx.quick else 300):
+        if ctx.out_of_time(0.3):
+            break
+        r = corpus.lookalike_reaction(rng)
+        if not corpus.wellformed(r):
+            ctx.count("lookalike_malformed")
+            continue
+        variants = corpus.variants(r, rng, k=3 if ctx.quick else 6)
+        ctx.count("lookalike_reactions")
+        if distinguishable(r, "nauty"):
+            ctx.count("lookalike_reactions_distinguishable")
+        check_canon(ctx, r, variants)
+        ctx.case(("rx", r), nontrivial=True, sample={"space": "look-alike spectators", "rsmi": r} if rng.random() < 0.05 else None)
     wf = corpus.wellformed_reactions()
     step = 2 if ctx.quick else 1
     for i, (rid, r) in enumerate(wf):
